@@ -143,4 +143,50 @@ theorem mem_sins (s : List Nat) (x y : Nat) : y ∈ sins s x ↔ y = x ∨ y ∈
                 · exact h'
   · simp
 
+/-! ### channels -/
+
+def chans (eps : AMap EpInfo) : List Nat := eps.filterMap (fun kv => kv.2.output)
+
+theorem mem_chans {eps : AMap EpInfo} {c : Nat} : c ∈ chans eps ↔ ∃ kv ∈ eps, kv.2.output = some c := by
+  simp [chans, List.mem_filterMap]
+
+theorem AMap.del_sublist {α : Type} (m : AMap α) (k : Nat) : (m.del k).Sublist m := by
+  induction m with
+  | nil => exact List.Sublist.slnil
+  | cons kv r ih =>
+    obtain ⟨k', v⟩ := kv
+    simp only [AMap.del]
+    split
+    · exact List.Sublist.cons _ ih
+    · exact List.Sublist.cons_cons _ ih
+
+theorem chans_del_nodup {eps : AMap EpInfo} (h : (chans eps).Nodup) (w : Nat) : (chans (eps.del w)).Nodup :=
+  List.Nodup.sublist (List.Sublist.filterMap _ (AMap.del_sublist eps w)) h
+
+theorem chans_set (eps : AMap EpInfo) (w : Nat) (ei : EpInfo) :
+    chans (eps.set w ei) = (match ei.output with | some c => [c] | none => []) ++ chans (eps.del w) := by
+  cases h : ei.output <;> simp [chans, AMap.set, List.filterMap_cons, h]
+
+theorem chans_inj {eps : AMap EpInfo} (hc : (chans eps).Nodup) {kv1 kv2 : Nat × EpInfo} {c : Nat}
+    (h1 : kv1 ∈ eps) (h2 : kv2 ∈ eps) (o1 : kv1.2.output = some c) (o2 : kv2.2.output = some c)
+    (hk : eps.NodupKeys) : kv1 = kv2 := by
+  induction eps with
+  | nil => simp at h1
+  | cons kv r ih =>
+    simp only [AMap.NodupKeys, List.map_cons, List.nodup_cons, List.mem_map, not_exists, not_and] at hk
+    have hcr : (chans r).Nodup :=
+      List.Nodup.sublist (List.Sublist.filterMap _ (List.sublist_cons_self kv r)) hc
+    rcases List.mem_cons.1 h1 with e1 | m1 <;> rcases List.mem_cons.1 h2 with e2 | m2
+    · rw [e1, e2]
+    · exfalso
+      subst e1
+      have : c ∈ chans r := mem_chans.2 ⟨kv2, m2, o2⟩
+      simp [chans, List.filterMap_cons, o1] at hc
+      exact hc.1 _ _ m2 o2
+    · exfalso
+      subst e2
+      simp [chans, List.filterMap_cons, o2] at hc
+      exact hc.1 _ _ m1 o1
+    · exact ih hcr m1 m2 hk.2
+
 end CalicoVerif.C31
